@@ -128,6 +128,39 @@ def convMethod (node : Method × Str × Str × Str) : Eff × Option MethodSkel :
              http := some { verb := m.verb, path := path, body := verbBody m.verb },
              mopt := m.mopt })
 
+/-- `checkListMethod` (`fix:` list-response-shape): the request has a property that refers,
+directly, to `j5.list.v1.QueryRequest` -/
+def isListRequest (c : Ctx) (req : List Property) : Bool :=
+  req.any fun p =>
+    match p.schema with
+    | .objectRef pkg schema _ _ =>
+      match c.resolve pkg schema with
+      | some t => t.pkg = b!"j5.list.v1" && t.name = b!"QueryRequest"
+      | none => false
+    | _ => false
+
+/-- items of the array properties of a property list -/
+def arrayItems (ps : List Property) : List Field :=
+  ps.filterMap fun p =>
+    match p.schema with
+    | .array items _ => some items
+    | _ => none
+
+/-- the response has exactly one array property, and it holds objects -/
+def listShaped : Option (List Property) → Bool
+  | none => false
+  | some ps =>
+    match arrayItems ps with
+    | [.objectRef _ _ _ _] => true
+    | [.objectInl _ _ _ _] => true
+    | _ => false
+
+/-- errors `checkListMethod` adds for a method -/
+def listMethodErr (c : Ctx) (m : Method) : Nat :=
+  match m.request with
+  | some req => if isListRequest c req && !listShaped m.response then 1 else 0
+  | none => 0
+
 def soptSkel : SOpt → SvcOpt
   | .none => .none
   | .query e => .query e
@@ -143,7 +176,8 @@ def convService (c : Ctx) (s : Service) : Step :=
     let built := walks.filterMap (·.node) |>.map convMethod
     let effBuild := built.foldl (fun e b => e ++ b.1) ({} : Eff)
     { target := .service,
-      eff := effWalk ++ effBuild ++ when (s.sopt ≠ .none) (Eff.use j5ExtImport),
+      eff := effWalk ++ effBuild ++ ({ errs := (s.methods.map (listMethodErr c)).sum } : Eff)
+              ++ when (s.sopt ≠ .none) (Eff.use j5ExtImport),
       svcs := [{ name := name ++ b!"Service", sopt := soptSkel s.sopt,
                  methods := built.filterMap (·.2) }] }
 
